@@ -214,8 +214,8 @@ Definition redo_root_move (s : store) (oldroot newroot lsn : N) : store * res un
 Definition is_sys_table (name : string) : bool :=
   String.eqb name pageTableName || String.eqb name schemaTableName.
 
-(* RelationService.Insert: one row *)
-Definition st_insert (s : store) (name : string) (cols : list string) (vals : list value)
+(* RelationService.Insert: one row (without the column-list check, which st_insert puts in front) *)
+Definition st_insert0 (s : store) (name : string) (cols : list string) (vals : list value)
   : store * res (list walentry) :=
   if is_sys_table name then (s, Err EOther) else
   match (do off <- rel_offset s name;
@@ -242,8 +242,26 @@ Definition st_insert (s : store) (name : string) (cols : list string) (vals : li
   | Panic => (s, Panic)
   end.
 
-(* RelationService.Update: the row with id rowid gets the SET values; scans the whole tree *)
-Definition st_update (s : store) (name : string) (rowid : N) (cols : list string) (vals : list value)
+(* the column-list check of Insert: reached only when the catalog lookups and the count test passed *)
+Definition ins_bad_cols (s : store) (name : string) (cols : list string) (vals : list value) : option err :=
+  if is_sys_table name then None else
+  match (do off <- rel_offset s name; do _ <- get_tree s off; rel_schema s name) with
+  | Ok sch =>
+      let cols' := match cols with [] => map fd_name sch | _ => cols end in
+      if negb (Nat.eqb (length cols') (length vals)) then None else cols_err (map fd_name sch) cols' []
+  | _ => None
+  end.
+
+Definition st_insert (s : store) (name : string) (cols : list string) (vals : list value)
+  : store * res (list walentry) :=
+  match ins_bad_cols s name cols vals with
+  | Some e => (s, Err e)
+  | None => st_insert0 s name cols vals
+  end.
+
+(* RelationService.Update: the row with id rowid gets the SET values; scans the whole tree
+   (without the column-list check, which st_update puts in front) *)
+Definition st_update0 (s : store) (name : string) (rowid : N) (cols : list string) (vals : list value)
   : store * res (list walentry) :=
   if is_sys_table name then (s, Err EOther) else
   match (do off <- rel_offset s name;
@@ -271,6 +289,21 @@ Definition st_update (s : store) (name : string) (rowid : N) (cols : list string
       end
   | Err e => (s, Err e)
   | Panic => (s, Panic)
+  end.
+
+(* the column-list check of Update: after the catalog lookups, before the scan *)
+Definition upd_bad_cols (s : store) (name : string) (cols : list string) : option err :=
+  if is_sys_table name then None else
+  match (do off <- rel_offset s name; do _ <- get_tree s off; rel_schema s name) with
+  | Ok sch => cols_err (map fd_name sch) cols []
+  | _ => None
+  end.
+
+Definition st_update (s : store) (name : string) (rowid : N) (cols : list string) (vals : list value)
+  : store * res (list walentry) :=
+  match upd_bad_cols s name cols with
+  | Some e => (s, Err e)
+  | None => st_update0 s name rowid cols vals
   end.
 
 (* RelationService.MarkDeleted *)
